@@ -55,6 +55,8 @@
 //     assumption that callers never pass nil is stated where it is used).
 //   - the zero value of a slice (a named result) is the empty list;
 //     newDeviceDataError(err, typ), like fmt.Errorf, makes a non-nil error;
+//   - `defer func() { err = errors.Annotate(err, …) }()` is dropped: it changes
+//     the text of a non-nil error only (nil stays nil);
 //   - a pointer to an abstract (library) struct has no value in Lean: `p == nil`
 //     / `p != nil` on it is an opaque Boolean parameter `e<k>_<p>_isNil` (one per
 //     source text of p), and a definition `x := e` of a local of an abstract
@@ -1415,6 +1417,16 @@ func (c *fctx) stmts(list []ast.Stmt) string {
 	case *ast.DeferStmt:
 		if c.matches(c.spec.Ignore, x.Call) {
 			return c.stmts(rest)
+		}
+		// defer func() { err = errors.Annotate(err, …) }(): nil stays nil, non-nil stays non-nil
+		if fl, ok := x.Call.Fun.(*ast.FuncLit); ok && len(x.Call.Args) == 0 && len(fl.Body.List) == 1 {
+			if as, ok := fl.Body.List[0].(*ast.AssignStmt); ok && as.Tok == token.ASSIGN && len(as.Lhs) == 1 && len(as.Rhs) == 1 && isError(c.typeOf(as.Lhs[0])) {
+				if call, ok := as.Rhs[0].(*ast.CallExpr); ok && len(call.Args) > 0 && c.show(call.Args[0]) == c.show(as.Lhs[0]) {
+					if key, _ := c.calleeKey(call); key == "github.com/AdguardTeam/golibs/errors.Annotate" {
+						return c.stmts(rest)
+					}
+				}
+			}
 		}
 		fail("defer %s", c.show(x))
 	}
